@@ -320,8 +320,8 @@ pub mod param_named_like_type {
     }
 }
 
-/// a parameter used again after another one in the same message kind (A, B, A), and parameters first mentioned in an order that is
-/// not their declaration order: each message is generic over each used parameter ONCE, in declaration order
+/// a parameter used again after another one in the same message kind (A, B, A): each message is generic over each used parameter
+/// ONCE. First mentions are in declaration order here; C14's permuted builds turn them around (first mention out of declaration order).
 pub mod reuse_and_order {
     use super::*;
 
@@ -340,7 +340,7 @@ pub mod reuse_and_order {
             Self { _p: std::marker::PhantomData }
         }
         #[sv::msg(instantiate)]
-        fn instantiate(&self, _ctx: InstantiateCtx, b: B, a: A, b2: B) -> StdResult<Response> {
+        fn instantiate(&self, _ctx: InstantiateCtx, a: A, b: B, a2: A) -> StdResult<Response> {
             Ok(Response::new())
         }
         #[sv::msg(exec)]
@@ -352,19 +352,19 @@ pub mod reuse_and_order {
             Ok(Response::new())
         }
         #[sv::msg(query)]
-        fn takes_c_returns_a(&self, _ctx: QueryCtx, c: C0) -> StdResult<A> {
+        fn takes_a_returns_c(&self, _ctx: QueryCtx, a: A) -> StdResult<C0> {
             unimplemented!()
         }
         #[sv::msg(query)]
-        fn takes_c_again(&self, _ctx: QueryCtx, c: Vec<C0>) -> StdResult<Plain> {
+        fn takes_a_again(&self, _ctx: QueryCtx, a: Vec<A>) -> StdResult<Plain> {
             unimplemented!()
         }
         #[sv::msg(sudo)]
-        fn store_c(&self, _ctx: SudoCtx, c: C0) -> StdResult<Response> {
+        fn store_b(&self, _ctx: SudoCtx, b: B) -> StdResult<Response> {
             Ok(Response::new())
         }
         #[sv::msg(sudo)]
-        fn store_b(&self, _ctx: SudoCtx, b: B) -> StdResult<Response> {
+        fn store_c(&self, _ctx: SudoCtx, c: C0, b: B) -> StdResult<Response> {
             Ok(Response::new())
         }
     }
@@ -381,13 +381,13 @@ pub mod reuse_and_order {
             #[sv::msg(exec)]
             fn lock(&self, ctx: ExecCtx, payer: Self::PartyT, asset: Self::AssetT, payee: Self::PartyT) -> Result<Response, Self::Error>;
             #[sv::msg(sudo)]
-            fn seize(&self, ctx: SudoCtx, asset: Self::AssetT, from: Self::PartyT) -> Result<Response, Self::Error>;
+            fn seize(&self, ctx: SudoCtx, from: Self::PartyT, asset: Self::AssetT, to: Self::PartyT) -> Result<Response, Self::Error>;
         }
 
         pub fn use_site() {
             use sylvia::cw_std::Empty;
             let e: sv::ExecMsg<Empty, Empty> = sv::ExecMsg::lock(Empty {}, Empty {}, Empty {});
-            let s: sv::SudoMsg<Empty, Empty> = sv::SudoMsg::seize(Empty {}, Empty {});
+            let s: sv::SudoMsg<Empty, Empty> = sv::SudoMsg::seize(Empty {}, Empty {}, Empty {});
             let _ = (e, s);
         }
     }
@@ -396,7 +396,7 @@ pub mod reuse_and_order {
         use sylvia::cw_std::Empty;
         let i: sv::InstantiateMsg<Empty, Empty> = sv::InstantiateMsg::new(Empty {}, Empty {}, Empty {});
         let e: sv::ExecMsg<Empty, Empty> = sv::ExecMsg::transfer(Empty {}, Empty {}, Empty {});
-        let q: sv::QueryMsg<Empty, Empty> = sv::QueryMsg::takes_c_returns_a(Empty {});
+        let q: sv::QueryMsg<Empty, Empty> = sv::QueryMsg::takes_a_returns_c(Empty {});
         let s: sv::SudoMsg<Empty, Empty> = sv::SudoMsg::store_b(Empty {});
         let _ = (i, e, q, s);
     }
